@@ -1507,7 +1507,7 @@ func (t *Tr) pointEnv(instr ssa.Instruction, cc *ssa.CallCommon) *Env {
 				}
 			case *ssa.DebugRef:
 				if obj := x.Object(); obj != nil {
-					if _, isVar := obj.(*types.Var); isVar {
+					if v, isVar := obj.(*types.Var); isVar && !v.IsField() {
 						t.bindVar(e, obj.Name(), x.X, x.IsAddr)
 					}
 				}
